@@ -73,3 +73,96 @@ def rules(t):
         if "decode_prefix" not in fmt(t.arg(c, 1)): r.bad("decode-len", c, "read_sequence length is not the prefix nibble")
     out.append(r)
     return out
+
+
+# explicit refusals of the renet packet reader (beyond running out of bytes), each with the reason why the writer never emits such a value.
+# key = (tag arm, Err variant, operator with the decoded value on the left, constant | "var" | "-")
+READER_REFUSALS = {
+    (2, "InvalidNumSlices", "Eq", 0): "writer: num_slices = div_ceil(len, SLICE_SIZE) of a message longer than SLICE_SIZE (C03.b)",
+    (2, "InvalidNumSlices", "Gt", 1000000): "accepted reader limit: messages above 1.2 GB are not transportable (documented limit, not a regression)",
+    (2, "EmptySlice", "is_empty", "-"): "writer: every slice is message[start..end] with start < end (C03.b)",
+    (2, "SliceSizeAboveLimit", "Gt", "SLICE_SIZE"): "writer: end - start <= SLICE_SIZE (C03.b)",
+    (3, "InvalidNumSlices", "Eq", 0): "as for tag 2",
+    (3, "InvalidNumSlices", "Gt", 1000000): "as for tag 2",
+    (4, "InvalidAckRange", "Lt", "var"): "writer: ranges are non-empty, sorted and disjoint (size = end-1-start >= 0, gap >= 0); three structural tests",
+    ("other", "InvalidPacketType", "-", "-"): "unknown tag",
+}
+
+
+def reader_refusals(t):
+    f = t.fn("renet::packet::Packet::from_bytes")
+    S = t.F.consts["renet::packet::SLICE_SIZE"]["val"]
+    r = RuleResult("C16.e", "the packet reader refuses nothing the writer can emit: every explicit refusal in from_bytes is a vetted one (or a count bound not below the sender's cap)", floor=9)
+    # tag arms
+    arms = {}
+    for br in t.branches(f):
+        if br["kind"] == "int" and "get_u8" in fmt(br["on"]):
+            for v, tgt in br["targets"].items(): arms[v] = (br["bb"], tgt)
+            arms["other"] = (br["bb"], br["otherwise"])
+    def arm_of(bb):
+        for v, e in arms.items():
+            if t.edge_dominates(f, e, bb): return v
+        return None
+    # the sender-side cap on ack ranges (read from add_pending_ack)
+    ap = t.fn("RenetClient::add_pending_ack")
+    caps = [const_eval(br["cond"][3]) for br, op, te, fe in t.find_cmp(ap, lambda a: "::len(" in fmt(a) and t.mentions_field(a, "pending_acks"), lambda b: const_eval(b) is not None, None) if op == "Gt"]
+    cap = max([c for c in caps if c is not None], default=None)
+    # loop counts of the Ack arm (`for _ in 0..n`)
+    seen = {}
+    for b in f.blocks:
+        if b["i"] not in f.reach: continue
+        for k, s in enumerate(b["stmts"]):
+            if s["k"] == "assign" and s["place"]["local"] == 0 and not s["place"]["proj"] and s["rv"]["k"] == "aggr" and s["rv"].get("vname") == "Err":
+                o = f._origin_of_def(s, 0)
+                m = re.search(r"SerializationError::(\w+)", fmt(o))
+                errv = m.group(1) if m else "?"
+                arm = arm_of(b["i"])
+                # the branch edges that lead here (an `a || b` refusal has one Err block entered from two tests): walk back through
+                # blocks that only jump, up to the conditional branches
+                conds = []
+                bmap = {br["bb"]: br for br in t.branches(f) if br["kind"] == "bool"}
+                work, seenb = [b["i"]], set()
+                while work:
+                    x = work.pop()
+                    if x in seenb: continue
+                    seenb.add(x)
+                    for p_ in f.pred[x]:
+                        if p_ in bmap:
+                            br = bmap[p_]
+                            if br["t_edge"][1] == x: conds.append((br, True))
+                            elif br["f_edge"][1] == x: conds.append((br, False))
+                        elif f.blocks[p_]["term"]["k"] == "goto" and all(z["k"] != "assign" or not z["place"]["proj"] for z in f.blocks[p_]["stmts"]): work.append(p_)
+                site = Site(f, b["i"], k, s)
+                if arm == "other" or not conds:
+                    key = (arm, errv, "-", "-")
+                    r.site(site, str(key))
+                    if key not in READER_REFUSALS: r.bad(f"refusal|{arm}|{errv}|unconditional", site, f"new reader refusal {errv} in arm {arm}")
+                    continue
+                for br, pol in conds:
+                    c = br["cond"]
+                    if c[0] == "cmp":
+                        op, a, b_ = c[1], c[2], c[3]
+                        ca, cb = const_eval(a), const_eval(b_)
+                        if ca is not None and cb is None: op, a, b_, ca, cb = MIRROR[op], b_, a, cb, ca
+                        if not pol: op = NEGATE[op]
+                        kc = "var" if cb is None else ("SLICE_SIZE" if cb == S else cb)
+                        key = (arm, errv, op, kc)
+                        subj = a
+                    elif c[0] == "call" and method_of(c[1]) == "is_empty" and pol: key = (arm, errv, "is_empty", "-"); subj = c[2][0]
+                    else: key = (arm, errv, fmt(br["raw"])[:40], "-"); subj = None
+                    r.site(site, str(key))
+                    if key in READER_REFUSALS: continue
+                    # a bound on the number of ack ranges that does not cut below what the sender emits is fine
+                    if arm == 4 and isinstance(key[3], int) and cap is not None and subj is not None and "get_varint" in fmt(subj) and key[2] in ("Gt", "Ge"):
+                        first_refused = key[3] + 1 if key[2] == "Gt" else key[3]
+                        if first_refused > cap - 1: continue
+                        r.bad(f"refusal|4|{errv}|{key[2]}|{key[3]}", site, f"the reader refuses ack packets with {first_refused} or more remaining ranges, but the sender emits up to {cap} ranges ({cap - 1} remaining): a full ack packet no longer decodes")
+                        continue
+                    r.bad(f"refusal|{arm}|{errv}|{key[2]}|{key[3]}", site, f"reader refusal not in the vetted table: arm {arm}, {errv} when value {key[2]} {key[3]} - the writer may emit such packets (round trip broken) unless shown otherwise")
+    return r
+
+_rules_c16 = rules
+def rules(t):
+    out = _rules_c16(t)
+    out.append(reader_refusals(t))
+    return out
